@@ -86,6 +86,24 @@ class UseWalrusIf(SimpleCodemod, NameResolutionMixin):
                 return test
         return None
 
+    def _parenthesize_if_needed(self, expression: cst.BaseExpression):
+        if isinstance(
+            expression,
+            (
+                cst.BooleanOperation,
+                cst.BinaryOperation,
+                cst.UnaryOperation,
+                cst.Comparison,
+                cst.IfExp,
+                cst.Lambda,
+                cst.Await,
+            ),
+        ) and not expression.lpar:
+            return expression.with_changes(
+                lpar=[cst.LeftParen()], rpar=[cst.RightParen()]
+            )
+        return expression
+
     def _tested_name(self, original_node: cst.If) -> cst.Name:
         match original_node.test:
             case cst.Name():
@@ -192,6 +210,10 @@ class UseWalrusIf(SimpleCodemod, NameResolutionMixin):
                 else named_expr
             )
 
+            if not isinstance(updated_node.test, cst.Name):
+                # inside `not ...` / a comparison an operator expression needs parentheses of its own:
+                # `x = a or b; if x is None` is not `if a or b is None`
+                new_expression = self._parenthesize_if_needed(new_expression)
             match updated_node.test:
                 case cst.Name():
                     return updated_node.with_changes(test=new_expression)
